@@ -105,7 +105,7 @@ PAYLOADS = {'payload_first': payload_first, 'payload_count': payload_count}
 # generation
 # ------------------------------------------------------------------------------------------
 
-FILE_NAMES = ['ofile', 'out', 'tmp1', 'result', 'my file', "it's", 'a$b', 'x;y', 'r&d', 'sp ace.txt', 'ünï', 'back\\slash',
+FILE_NAMES = ['ofile', 'out', 'tmpA', 'result', 'my file', "it's", 'a$b', 'x;y', 'r&d', 'sp ace.txt', 'ünï', 'back\\slash',
               'q"uote', 'dash-ed', 'star*', 'tilde~x', 'paren(1)', 'o.vcf', 'HOME', '$HOME', '`id`', 'a|b', 'glob?']
 GROUP_NAMES = ['grp', 'bfile', 'outset']
 GROUP_MEMBERS = [('a', '{root}.a', '.a'), ('bed', '{root}.bed', '.bed'), ('bim', '{root}.bim', '.bim'),
@@ -617,6 +617,8 @@ def execute(case):
             except Exception as e:
                 obs['build_error'] = repr(e)[:600]
                 return obs
+            dirnames = [jobs[j]._dirname for j in sorted(jobs)]  # classification of witnesses only
+            obs['dirname_collision'] = len(set(dirnames)) < len(dirnames)
             try:
                 b.run(wait=False, disable_progress_bar=True)
             except BatchException as e:
@@ -776,6 +778,12 @@ def check(ctx, case, obs):
     w = {'case_mode': case['mode'], 'ops': case['ops'], 'jobs': case['jobs'], 'files': case['files'], 'groups': case['groups']}
 
     def viol(key, what, **extra):
+        # one root cause, one mechanism key: everything that goes wrong in a program whose jobs got the same directory
+        # (token collision), or whose digit probe spelled the uid of another resource, is a consequence of that
+        if obs.get('dirname_collision'):
+            key = 'paths/job-token-collision'
+        elif obs.get('probes') and obs['probes'][0]['steered'] and not key.startswith(('build/', 'submit/')):
+            key = 'interpolate/digit-after-reference-captures-another-resource'
         ww = dict(w)
         ww.update(extra)
         ww['specs'] = obs.get('specs')
